@@ -258,6 +258,37 @@ def shard_bytes(shard, nshards, tier, seed, scratch):
                     if recs and fi >= len(VALID_FILES):
                         stats.bump('records-observed-before-failure')
         stats.bump('file-%d' % fi)
+    # quoted_rfc: a decode error that surfaces while the reader is inside a multi-line quoted field
+    rfc_files = ['k1,"line one\nline two é\nthree",x\nk2,"a\n\nb",€\n'.encode('utf-8'), ('id,"' + 'multi\nline ' * 900 + '",end\n').encode('utf-8')]
+    for fi, data in enumerate(rfc_files):
+        positions = range(0, len(data) + 1) if fi == 0 else list(range(8100, len(data) + 1, 211)) + [len(data)]
+        for pos in positions:
+            for bad in BAD_BYTES:
+                is_lead = bad[0] >= 0xC0 and bad != b'\xff'
+                if is_lead and pos != len(data):
+                    continue
+                if is_lead:
+                    broken = data.rstrip(b'\n')[:-5] + bad if fi == 0 else data[:len(data) // 2] + bad      # the input ends inside the quoted field
+                else:
+                    broken = data[:pos] + bad + data[pos:]
+                try:
+                    broken.decode('utf-8')
+                    continue
+                except UnicodeDecodeError:
+                    pass
+                for cs in ([1, 2, 3, 5, 8, 16, 1024] if fi == 0 else [1024, 4096]):
+                    counter += 1
+                    if counter % nshards != shard:
+                        continue
+                    case = {'kind': 'bytes', 'file': 'rfc-%d' % fi, 'pos': pos, 'bad': bad.hex(), 'chunk_size': cs}
+                    recs, err = read_direct(broken, cs, 'quoted_rfc')
+                    stats.evaluations += 1
+                    stats.nontrivial_counted += 1
+                    if err is None:
+                        fail('invalid-utf8-accepted-rfc', dict(case, records=recs[:2]), case)
+                    elif type(err).__name__ != 'RbqlIOHandlingError':
+                        fail('raw-decoding-exception-rfc', dict(case, error=repr(err)), case)
+        stats.bump('rfc-file-%d' % fi)
     # through query_csv: input file and join file
     src, jn, dst = os.path.join(scratch, 'b_in.csv'), os.path.join(scratch, 'b_join.csv'), os.path.join(scratch, 'b_out.csv')
     data = files[0]
